@@ -5,7 +5,7 @@
    one_line l := exists body, l = body ++ [CR; LF] /\ body has no CR, LF, NUL. *)
 From Coq Require Import List NArith String.
 Import ListNotations.
-Require Import Base.Wire Base.PyStr C05.Model C06.Model C06.Lemmas C06.Truncate C06.Inventory.
+Require Import Base.Wire Base.PyStr C05.Model C06.Model C06.Lemmas C06.Truncate C06.Inventory C06.OutFilter.
 Require gen.T06.
 
 (* Every message the keyword constructor accepts (the assert passes) serialises to exactly one
@@ -110,3 +110,28 @@ Theorem C06_inventory :
   s_kind s = 2%N.
 Proof. exact inventory. Qed.
 Print Assumptions C06_inventory.
+
+(* Filter.outFilter (per-channel output filter, rebuilds the message through the msg= branch): with filter
+   commands that cannot create CR, LF or NUL it keeps the constructor invariant, so it is one of the
+   outFilters C06_take_line quantifies over ... *)
+Theorem C06_outfilter_preserves :
+  forall active fs, Forall line_preserving fs ->
+  (forall m, wf_outb m = true -> wf_outb (filter_outFilter active fs m) = true)
+  /\ filter_ok (fun m => Some (filter_outFilter active fs m)).
+Proof. intros a fs H. split; [intros m; apply outFilter_wf; exact H|apply outFilter_filter_ok; exact H]. Qed.
+Print Assumptions C06_outfilter_preserves.
+
+(* ... and with a filter that can (a decoder) the rebuilt message is not one line: nothing re-validates. *)
+Theorem C06_outfilter_unchecked :
+  wf_outb digits_msg = true /\ one_line (serialize digits_msg)
+  /\ ~ line_preserving decoder_like
+  /\ ~ one_line (serialize (filter_outFilter true [decoder_like] digits_msg)).
+Proof. exact outFilter_unchecked. Qed.
+Print Assumptions C06_outfilter_unchecked.
+
+(* Hence the whitelist Filter._filterCommands (regenerated) may only name filters validated as
+   line-preserving by the harness (function-level and live); no decoder is among them. *)
+Theorem C06_outfilter_whitelist :
+  forall c, In c gen.T06.FILTER_COMMANDS -> In c validated_out_filters.
+Proof. exact whitelist_validated. Qed.
+Print Assumptions C06_outfilter_whitelist.
